@@ -10,6 +10,10 @@
 //!   * applying the recovered state to a fresh node once or twice gives the GET / HGETALL
 //!     answers of the fold's client view;
 //! and the two arrangements (a permutation / duplication of one another) agree.
+//! Tier `race`: a concurrent writer of the same store (real Compactor::compact, a flush, a
+//! checkpoint install + manifest compaction) runs before every store call index of recovery; the
+//! call returns Err (an undisturbed retry then holds everything) or a state holding everything
+//! persisted before recovery started.
 
 #[path = "../../c14/src/worldgen.rs"]
 mod worldgen;
@@ -22,6 +26,7 @@ use redis_sim::replication::{
     CrdtValue, LamportClock, ReplicaId, ReplicatedValue, ReplicationConfig, ReplicationDelta,
 };
 use redis_sim::streaming::{
+    CompactionConfig, Compactor, ListResult, ObjectMeta,
     CheckpointInfo, CheckpointWriter, Compression, InMemoryObjectStore, InMemoryWalStore, Manifest,
     ManifestManager, ObjectStore, RecoveredState, RecoveryManager, SegmentInfo, SegmentWriter,
     SimulatedClock, StreamingPersistence, WalEntry, WalRotator, WriteBufferConfig,
@@ -29,7 +34,9 @@ use redis_sim::streaming::{
 use serde::{Deserialize, Serialize};
 use serde_json::{json, Value as J};
 use std::collections::{BTreeMap, BTreeSet, HashMap};
-use std::sync::Arc;
+use std::future::Future;
+use std::pin::Pin;
+use std::sync::{Arc, Mutex};
 use vcore::proj::{client_view, peer_view};
 use vcore::resp::Reply;
 use vcore::time::VerifTime;
@@ -794,6 +801,356 @@ fn check_layout(case: &Layout, ctx: &mut CaseCtx<'_>) -> Result<(), String> {
     Ok(())
 }
 
+
+// ---------------------------------------------------------------------------------------
+// recovery racing with a concurrent writer of the same store
+// ---------------------------------------------------------------------------------------
+
+type IoRes<T> = std::io::Result<T>;
+type Action = Box<dyn FnOnce() + Send>;
+
+struct RaceCtl {
+    calls: usize,
+    /// the action runs immediately BEFORE the store call with this 1-based index (0 = never)
+    fire_at: usize,
+    action: Option<Action>,
+    log: Vec<String>,
+}
+
+/// Harness-owned ObjectStore the recovering process sees: counts its store calls and lets a
+/// concurrent writer (working on the inner store directly) run at one chosen call index.
+#[derive(Clone)]
+struct RaceStore {
+    inner: InMemoryObjectStore,
+    ctl: Arc<Mutex<RaceCtl>>,
+}
+
+impl RaceStore {
+    fn new(inner: InMemoryObjectStore, fire_at: usize, action: Option<Action>) -> Self {
+        RaceStore {
+            inner,
+            ctl: Arc::new(Mutex::new(RaceCtl {
+                calls: 0,
+                fire_at,
+                action,
+                log: Vec::new(),
+            })),
+        }
+    }
+    fn tick(&self, what: &str, key: &str) {
+        let act = {
+            let mut c = self.ctl.lock().unwrap();
+            c.calls += 1;
+            c.log.push(format!("{} {}", what, key));
+            if c.calls == c.fire_at {
+                c.action.take()
+            } else {
+                None
+            }
+        };
+        if let Some(a) = act {
+            a();
+        }
+    }
+    fn calls(&self) -> usize {
+        self.ctl.lock().unwrap().calls
+    }
+    fn log(&self) -> Vec<String> {
+        self.ctl.lock().unwrap().log.clone()
+    }
+}
+
+impl ObjectStore for RaceStore {
+    fn put<'a>(&'a self, key: &'a str, data: &'a [u8]) -> Pin<Box<dyn Future<Output = IoRes<()>> + Send + 'a>> {
+        Box::pin(async move {
+            self.tick("put", key);
+            self.inner.put(key, data).await
+        })
+    }
+    fn get<'a>(&'a self, key: &'a str) -> Pin<Box<dyn Future<Output = IoRes<Vec<u8>>> + Send + 'a>> {
+        Box::pin(async move {
+            self.tick("get", key);
+            self.inner.get(key).await
+        })
+    }
+    fn exists<'a>(&'a self, key: &'a str) -> Pin<Box<dyn Future<Output = IoRes<bool>> + Send + 'a>> {
+        Box::pin(async move {
+            self.tick("exists", key);
+            self.inner.exists(key).await
+        })
+    }
+    fn delete<'a>(&'a self, key: &'a str) -> Pin<Box<dyn Future<Output = IoRes<()>> + Send + 'a>> {
+        Box::pin(async move {
+            self.tick("delete", key);
+            self.inner.delete(key).await
+        })
+    }
+    fn list<'a>(
+        &'a self,
+        prefix: &'a str,
+        continuation_token: Option<&'a str>,
+    ) -> Pin<Box<dyn Future<Output = IoRes<ListResult>> + Send + 'a>> {
+        Box::pin(async move {
+            self.tick("list", prefix);
+            self.inner.list(prefix, continuation_token).await
+        })
+    }
+    fn rename<'a>(&'a self, from: &'a str, to: &'a str) -> Pin<Box<dyn Future<Output = IoRes<()>> + Send + 'a>> {
+        Box::pin(async move {
+            self.tick("rename", from);
+            self.inner.rename(from, to).await
+        })
+    }
+    fn head<'a>(&'a self, key: &'a str) -> Pin<Box<dyn Future<Output = IoRes<ObjectMeta>> + Send + 'a>> {
+        Box::pin(async move {
+            self.tick("head", key);
+            self.inner.head(key).await
+        })
+    }
+}
+
+#[derive(Clone, Debug, Serialize, Deserialize, Hash)]
+enum Writer {
+    /// the real Compactor::compact (merges the lowest-id segments into a new one, deletes them)
+    Compact { max_per_compaction: u8 },
+    /// a StreamingPersistence::flush of `n` late updates (new keys and a newer write of an old key)
+    Flush { n: u8 },
+    /// a checkpoint of the node's whole state covering the first `covers` listed segments,
+    /// Manifest::compact_segments + save, optionally deleting what it covers
+    Checkpoint { covers: u8, delete_objects: bool },
+}
+
+#[derive(Clone, Debug, Serialize, Deserialize, Hash)]
+struct RaceCase {
+    world: WorldSpec,
+    arr: Arrangement,
+    writers: Vec<Writer>,
+}
+
+fn race_case() -> impl Strategy<Value = RaceCase> {
+    let writer = prop_oneof![
+        3 => (2u8..=6).prop_map(|m| Writer::Compact { max_per_compaction: m }),
+        1 => (1u8..=3).prop_map(|n| Writer::Flush { n }),
+        2 => (any::<u8>(), any::<bool>()).prop_map(|(covers, delete_objects)| Writer::Checkpoint { covers, delete_objects }),
+    ];
+    (
+        worldgen::world(GenCfg { max_ops: 14, ..world_cfg() }),
+        arrangement(),
+        proptest::collection::vec(writer, 1..=3),
+    )
+        .prop_map(|(world, mut arr, writers)| {
+            // the race is about segments: bias towards several of them
+            if arr.n_segments < 2 {
+                arr.n_segments += 2;
+            }
+            RaceCase { world, arr, writers }
+        })
+}
+
+/// The concurrent writer, acting on the inner store like another process would.
+fn writer_action(w: &Writer, store: &InMemoryObjectStore, d: &[ReplicationDelta]) -> Action {
+    let store = store.clone();
+    let w = w.clone();
+    let full_state: HashMap<String, ReplicatedValue> = fold(d.iter()).into_iter().collect();
+    let max_time = d.iter().map(|x| x.value.timestamp.time).max().unwrap_or(0).min(u64::MAX - 1000);
+    let first_key = d.first().map(|x| (x.key.clone(), x.value.is_hash()));
+    Box::new(move || {
+        let mm = ManifestManager::new(store.clone(), PREFIX);
+        match w {
+            Writer::Compact { max_per_compaction } => {
+                let mut c = Compactor::with_time_source(
+                    Arc::new(store.clone()),
+                    PREFIX.to_string(),
+                    mm,
+                    CompactionConfig {
+                        target_segment_size: 1 << 30,
+                        max_segments: 2,
+                        min_segments_to_compact: 2,
+                        max_segments_per_compaction: max_per_compaction as usize,
+                        tombstone_ttl: std::time::Duration::from_secs(3600),
+                        compression_enabled: false,
+                    },
+                    // clock 0: no tombstone is collected (tombstone GC is C13's business)
+                    VerifTime::new(0),
+                );
+                let _ = ready(c.compact());
+            }
+            Writer::Flush { n } => {
+                if let Ok(mut sp) = ready(StreamingPersistence::with_clock(
+                    Arc::new(store.clone()),
+                    PREFIX.to_string(),
+                    1,
+                    WriteBufferConfig::test(),
+                    SimulatedClock::new(0),
+                )) {
+                    for i in 0..n as u64 {
+                        let _ = sp.push(delta(&format!("late:{}", i), "late", max_time + 1 + i, 1));
+                    }
+                    if let Some((k, false)) = &first_key {
+                        let _ = sp.push(delta(k, "late-overwrite", max_time + 50, 1));
+                    }
+                    let _ = ready(sp.flush());
+                }
+            }
+            Writer::Checkpoint { covers, delete_objects } => {
+                let Ok(mut m) = ready(mm.load()) else { return };
+                if m.segments.is_empty() {
+                    return;
+                }
+                let c = 1 + ((covers as usize * m.segments.len()) >> 8);
+                let last_id = m.segments[c - 1].id;
+                let ts = m.checkpoint.as_ref().map(|c| c.timestamp_ms + 1).unwrap_or(7);
+                let key = format!("{}/checkpoints/chk-{:016}.chk", PREFIX, ts);
+                let Ok(img) = CheckpointWriter::new(Compression::None).write(full_state.clone(), ts, last_id) else {
+                    return;
+                };
+                if ready(store.put(&key, &img)).is_err() {
+                    return;
+                }
+                let mut gone: Vec<String> = m.segments.iter().filter(|s| s.id <= last_id).map(|s| s.key.clone()).collect();
+                if let Some(old) = &m.checkpoint {
+                    gone.push(old.key.clone());
+                }
+                m.compact_segments(CheckpointInfo {
+                    key,
+                    timestamp_ms: ts,
+                    key_count: full_state.len() as u64,
+                    last_segment_id: last_id,
+                });
+                if ready(mm.save(&m)).is_err() {
+                    return;
+                }
+                if delete_objects {
+                    for k in gone {
+                        let _ = ready(store.delete(&k));
+                    }
+                }
+            }
+        }
+    })
+}
+
+/// `got` must hold at least `truth`: merging truth into it changes nothing, for every key.
+fn missing_from(truth: &State, got: &State, modulo: bool) -> Option<String> {
+    for (k, t) in truth {
+        match got.get(k) {
+            None => return Some(format!("key {:?}: persisted ({}) but missing", k, client_view(t))),
+            Some(g) => {
+                let merged = g.merge(t);
+                if peer(&merged, modulo) != peer(g, modulo) || client_view(&merged) != client_view(g) {
+                    return Some(format!(
+                        "key {:?}: the recovered value does not include what was persisted\n      persisted: {}\n      recovered: {}",
+                        k, peer(t, modulo), peer(g, modulo)
+                    ));
+                }
+            }
+        }
+    }
+    None
+}
+
+#[derive(Clone, Copy, PartialEq, Debug)]
+enum Entry {
+    Recover,
+    Progress,
+    WithWal,
+}
+
+fn run_entry(entry: Entry, store: &RaceStore, wal: &InMemoryWalStore) -> Result<RecoveredState, String> {
+    let mgr = RecoveryManager::new(store.clone(), PREFIX, 1);
+    match entry {
+        Entry::Recover => ready(mgr.recover()).map_err(|e| e.to_string()),
+        Entry::Progress => ready(mgr.recover_with_progress(|_| {})).map_err(|e| e.to_string()),
+        Entry::WithWal => {
+            let rot = WalRotator::new(wal.clone(), 1 << 20).map_err(|e| e.to_string())?;
+            ready(mgr.recover_with_wal(&rot)).map_err(|e| e.to_string())
+        }
+    }
+}
+
+fn check_race(case: &RaceCase, ctx: &mut CaseCtx<'_>) -> Result<(), String> {
+    let (d, _) = worldgen::run(&case.world);
+    if d.is_empty() {
+        return Ok(());
+    }
+    let modulo = ctx.finding_open(KF_OUTER_STAMP);
+    // undisturbed run: counts the store calls of recovery and fixes the ground truth
+    let b0 = build(&d, &case.arr).map_err(|e| format!("harness: {}", e))?;
+    let persisted_store: BTreeSet<usize> = b0.in_checkpoint.union(&b0.in_live_segments).copied().collect();
+    let truth_store = fold(persisted_store.iter().map(|&i| &d[i]));
+    let truth_all = fold(d.iter());
+    let quiet = RaceStore::new(b0.store.clone(), 0, None);
+    let r0 = run_entry(Entry::Recover, &quiet, &b0.wal).map_err(|e| format!("undisturbed recover(): {}", e))?;
+    if let Some(diff) = diff_states(&truth_store, &fold_recovered(&r0), modulo) {
+        return Err(format!("undisturbed recover() is not the merge of what is persisted (see 'layouts'): {}", diff));
+    }
+    let n_calls = quiet.calls();
+    let listed = b0.manifest.segments.len();
+    ctx.label(match listed {
+        0 => "race_listed_segments_0",
+        1 => "race_listed_segments_1",
+        2..=3 => "race_listed_segments_2_3",
+        _ => "race_listed_segments_4_plus",
+    });
+    let mut evals = 0u64;
+    let mut nontrivial = false;
+    for w in &case.writers {
+        for fire_at in 1..=n_calls + 1 {
+            for entry in [Entry::Recover, Entry::Progress, Entry::WithWal] {
+                let b = build(&d, &case.arr).map_err(|e| format!("harness: {}", e))?;
+                let store = RaceStore::new(b.store.clone(), fire_at, Some(writer_action(w, &b.store, &d)));
+                let truth = if entry == Entry::WithWal { &truth_all } else { &truth_store };
+                let out = run_entry(entry, &store, &b.wal);
+                evals += 1;
+                let fired = store.ctl.lock().unwrap().action.is_none();
+                let describe = || {
+                    format!(
+                        "{:?} running while recovery ({:?}) is between store calls: it ran before call #{} of [{}]",
+                        w, entry, fire_at, store.log().join(", ")
+                    )
+                };
+                match out {
+                    Ok(rs) => {
+                        if let Some(what) = missing_from(truth, &fold_recovered(&rs), modulo) {
+                            return Err(format!(
+                                "recovery returned Ok with persisted updates missing.\n  {}\n    {}\n  manifest recovery worked from: {}",
+                                describe(), what, serde_json::to_string(&rs.manifest).unwrap_or_default()
+                            ));
+                        }
+                        ctx.label(if fired { "race_ok_complete" } else { "race_writer_after_last_call" });
+                    }
+                    Err(e) => {
+                        // an error is acceptable if a retry on the now quiet store sees everything
+                        let again = run_entry(entry, &RaceStore::new(b.store.clone(), 0, None), &b.wal)
+                            .map_err(|e2| format!("recovery failed ({}) and the undisturbed retry failed too: {}\n  {}", e, e2, describe()))?;
+                        if let Some(what) = missing_from(truth, &fold_recovered(&again), modulo) {
+                            return Err(format!(
+                                "recovery failed ({}); the undisturbed retry returned Ok with persisted updates missing.\n  {}\n    {}",
+                                e, describe(), what
+                            ));
+                        }
+                        ctx.label("race_err_then_retry_complete");
+                    }
+                }
+                if fired && fire_at >= 2 && fire_at <= n_calls && listed >= 2 {
+                    nontrivial = true;
+                }
+            }
+        }
+        ctx.label(match w {
+            Writer::Compact { .. } => "race_writer_compaction",
+            Writer::Flush { .. } => "race_writer_flush",
+            Writer::Checkpoint { delete_objects: true, .. } => "race_writer_checkpoint_deleting",
+            Writer::Checkpoint { .. } => "race_writer_checkpoint",
+        });
+    }
+    ctx.add_evaluations(evals);
+    if nontrivial {
+        ctx.nontrivial(case);
+    }
+    Ok(())
+}
+
 fn delta(key: &str, val: &str, time: u64, replica: u64) -> ReplicationDelta {
     ReplicationDelta::new(
         key.to_string(),
@@ -816,7 +1173,8 @@ fn main() {
         "a case = ground-truth updates (<= 25 ops: SET incl. expiry, DEL, HSET, HDEL, gossip between replicas, remote far-ahead stamps) emitted through ShardReplicaState by 1-3 replicas x 16 shard clocks, \
          string keys and hash keys disjoint (no type flips), plus two independent arrangements of the same updates into checkpoint (fold of the covered segments + a generated subset; manifest compacted or not) / \
          0-6 segments (StreamingPersistence::push+flush or SegmentWriter+Manifest::add_segment with id gaps; duplicates within and across segments; generated order) / WAL files (WalRotator over InMemoryWalStore, overlapping the store or not). \
-         non-trivial = an arrangement has >= 2 segments with overlapping stamp ranges and >= 1 key present in two containers; distinct by the whole case",
+         race: one arrangement + 1-3 concurrent writers fired before every store call index of recover / recover_with_progress / recover_with_wal. \
+         non-trivial = (layouts) an arrangement has >= 2 segments with overlapping stamp ranges and >= 1 key present in two containers; (race) the writer ran between the manifest read and the last call, >= 2 listed segments; distinct by the whole case",
         &args,
     );
     s.assume("every update is persisted at least once (segment or WAL); a checkpoint covers >= 1 existing segment and contains at least everything in the segments it covers (the API's precondition)");
@@ -876,6 +1234,11 @@ fn main() {
     }
 
     s.describe_check("layouts", "ground truth x two arrangements; recover / recover_with_progress / recover_with_wal folds, idempotence, node answers");
-    s.run_cases("layouts", s.scale(20_000, 600_000), layout, check_layout);
+    s.run_cases("layouts", s.scale(8_000, 600_000), layout, check_layout);
+    s.describe_check(
+        "race",
+        "one arrangement; a concurrent writer (real Compactor::compact / StreamingPersistence::flush / checkpoint install + manifest compaction) runs before EVERY store call index of recover(), recover_with_progress() and recover_with_wal(): Err (then an undisturbed retry holds everything) or a state that holds everything persisted before recovery started; non-trivial = the writer ran after the manifest read and before the last call, >= 2 listed segments",
+    );
+    s.run_cases("race", s.scale(4_000, 120_000), race_case, check_race);
     s.finish();
 }
